@@ -78,7 +78,7 @@ def sx(n, keep_casts=False):
     if k == "CXXDependentScopeMemberExpr":
         base = sx(ks[0], keep_casts) if ks else ("this",)
         return ("mem", base, n.get("member", "?"))
-    if k in ("UnresolvedLookupExpr",):
+    if k in ("UnresolvedLookupExpr", "DependentScopeDeclRefExpr"):
         return ("ref", n.get("name", "?"))
     if k == "UnresolvedMemberExpr":
         return ("mem", sx(ks[0], keep_casts) if ks else ("this",), n.get("member", "?"))
